@@ -54,6 +54,10 @@ func c17Pattern(r *rng, depth int) (string, int) {
 					item = "(" + inner + ")"
 					groups += g + 1
 				}
+			case r.chance(1, 9):
+				// a context assertion anywhere (inside one alternative, inside a group): what a match captures then depends
+				// on where it is, not only on its text
+				item = r.pick([]string{"^", "$", `\b`, `\B`, "^", "$"})
 			default:
 				item = r.pick(c17Atoms)
 			}
@@ -377,6 +381,28 @@ func runC17(c *ctx) {
 			c.diffEval("xs["+lit+"]", in2, "predicate")
 			c.diffEval("xs.$match("+lit+").match", in2, "context")
 			c.diffEval("xs.$replace("+lit+", \"_\")", in2, "context")
+		}
+	}
+	// what a match captures depends on where it is, not only on its text: one alternative (or an optional group) holds a
+	// context assertion, so equal matched texts in one subject come with different groups; templates and functions read them
+	c.rep.Exhaustive = append(c.rep.Exhaustive, "context-dependent captures: 14 pattern shapes x 5 atoms x 10 subjects x 8 templates")
+	for _, shape := range []string{"(X$)|(X)", "(^X)|(X)", "(^X)|X", "X|(X$)", `(\bX)|(X)`, `(X\b)|(X)`, "(?:^|(Y))X", "X(?:$|(Y))", "(^)?X", "X($)?", `(\b)?X(\B)?`, "(?:(^X)|(X$)|(X))", "(^|Y)(X)", "((^)X|X)"} {
+		for _, x := range []string{"a", "ab", "[ab]", ".", `\w`} {
+			pat := strings.ReplaceAll(strings.ReplaceAll(shape, "X", x), "Y", "b")
+			re, err := regexp.Compile(pat)
+			if err != nil {
+				continue
+			}
+			for _, subj := range []string{"aa", "aba", "abab", "a a", "aaa", "ba", "ab ab", "abba", "a", "bab a"} {
+				in := map[string]interface{}{"s": subj}
+				for _, tmpl := range []string{"[$1|$2]", "<$1>", "$2$1$1", "$0$1", "($3)($2)($1)", "$1", "-", "$2"} {
+					prog := "$replace(s, /" + pat + "/, " + jsonLit(tmpl) + ")"
+					c.diffEval(prog, in, "context-dependent-captures")
+					oracle(prog, in, oracleReplace(re, subj, tmpl, -1), "context-dependent-captures")
+				}
+				c.diffEval("$replace(s, /"+pat+"/, function($m){$string($m.groups)})", in, "context-dependent-captures")
+				c.diffEval("$match(s, /"+pat+"/).groups", in, "context-dependent-captures")
+			}
 		}
 	}
 	// user-defined matcher functions: good and bad offsets
